@@ -8,6 +8,7 @@ import (
 	"time"
 
 	"github.com/miekg/dns"
+	"github.com/semihalev/sdns/internal/cache"
 	"github.com/semihalev/sdns/middleware"
 )
 
@@ -181,3 +182,6 @@ func VerifC04PrefetchPct(c *Cache) int { return c.config.Prefetch }
 
 // VerifC04ECSMax reads the ECS cap the store works with.
 func VerifC04ECSMax(c *Cache) time.Duration { return c.store.cfg.ECSMaxTTL }
+
+// VerifC04Positive exposes the bounded map behind the positive answer cache.
+func VerifC04Positive(c *Cache) *cache.Cache { return c.positive.cache }
